@@ -87,8 +87,8 @@ let () =
          (match lua_string_literal q with
           | Some r -> print_endline (id ^ " Q:" ^ hex_of_zl q ^ " L:K V:" ^ show_value (VStr r))
           | None -> print_endline (id ^ " Q:" ^ hex_of_zl q ^ " L:C V:-"))
-       | VInt n -> print_endline (id ^ " Q:" ^ hex_of_zl (format_int n) ^ " L:K V:" ^
-                                  (match parse_int (format_int n) with Some m -> "i" ^ dec_of_z m | None -> "n"))
+       | VInt n -> print_endline (id ^ " Q:" ^ hex_of_zl (quote_int n) ^ " L:K V:" ^
+                                  (match lit_int (quote_int n) with Some m -> "i" ^ dec_of_z m | None -> "n"))
        | _ -> print_endline (id ^ " unmodelled"))
     | id :: "T" :: v :: _ ->
       (match parse_value v with
